@@ -161,7 +161,10 @@ ULong c_bufRdULong(Buffer b)
 	 (r)[cc] == 0)
 #define V_HAS_NUL_BEFORE(s, n)   v_has_nul_before((const UByte *)(s), (n))
 
-/* ---- writers ------------------------------------------------------------ */
+/* ---- writers ------------------------------------------------------------
+ * The writers' obligations are the POST_ macros below, checked by harness-level CHECKs in
+ * harness/C05/buffer_wr_h.c (dfcc instrumentation of the stoResize/realloc path exhausts 8 GB, probed), so
+ * there are no c_<writer> declarations: nothing here is assumed through a contract that is not checked. */
 #define PRE_bufWr(b)                          (BUF_WF_WR(b) && g_ix < (b)->argc)
 /* the view after a k-byte write of value v (k in 1,2,4): pos advanced, still WF, new bytes = ENC,
  * old view byte g_ix unchanged */
@@ -179,11 +182,6 @@ ULong c_bufRdULong(Buffer b)
 #define POST_bufAdd1(b, c, pos0, argc0, argv0, oldg, r) \
 	(BUF_WR_VIEW(b, pos0, 1) && (b)->argv[pos0] == (UByte)(c) && BUF_OLD_KEPT(b, pos0, oldg) && \
 	 BUF_NOGROW(b, pos0, argc0, argv0, 1, oldg) && (r) == (int)(UByte)(c))
-int c_bufAdd1(Buffer b, int c)
-	__CPROVER_requires(PRE_bufWr(b))
-	__CPROVER_ensures(POST_bufAdd1(b, c, __CPROVER_old(b->pos), __CPROVER_old(b->argc), __CPROVER_old(b->argv), __CPROVER_old(V_OLDG(b)), __CPROVER_return_value))
-	__CPROVER_assigns(b->pos, b->argc, b->argv, __CPROVER_object_whole(b->argv))
-	__CPROVER_frees(b->argv);
 
 #ifndef CANARY_bufPutByte
 #define POST_bufPutByte(b, v, pos0, argc0, argv0, oldg) \
@@ -193,11 +191,6 @@ int c_bufAdd1(Buffer b, int c)
 #define POST_bufPutByte(b, v, pos0, argc0, argv0, oldg) \
 	(BUF_WR_VIEW(b, pos0, 1) && (b)->argv[pos0] == ENC_LE(v, 0) && (g_ix == (pos0) - 1 ? (b)->argv[g_ix] != (oldg) : 1))
 #endif
-void c_bufPutByte(Buffer b, UByte c)
-	__CPROVER_requires(PRE_bufWr(b))
-	__CPROVER_ensures(POST_bufPutByte(b, c, __CPROVER_old(b->pos), __CPROVER_old(b->argc), __CPROVER_old(b->argv), __CPROVER_old(V_OLDG(b))))
-	__CPROVER_assigns(b->pos, b->argc, b->argv, __CPROVER_object_whole(b->argv))
-	__CPROVER_frees(b->argv);
 
 #ifndef CANARY_bufPutHInt
 #define POST_bufPutHInt(b, v, pos0, argc0, argv0, oldg) \
@@ -207,11 +200,6 @@ void c_bufPutByte(Buffer b, UByte c)
 #define POST_bufPutHInt(b, v, pos0, argc0, argv0, oldg) \
 	(BUF_WR_VIEW(b, pos0, 2) && (b)->argv[pos0] == ENC_LE(v, 1) && (b)->argv[(pos0) + 1] == ENC_LE(v, 0))
 #endif
-void c_bufPutHInt(Buffer b, UShort h)
-	__CPROVER_requires(PRE_bufWr(b))
-	__CPROVER_ensures(POST_bufPutHInt(b, h, __CPROVER_old(b->pos), __CPROVER_old(b->argc), __CPROVER_old(b->argv), __CPROVER_old(V_OLDG(b))))
-	__CPROVER_assigns(b->pos, b->argc, b->argv, __CPROVER_object_whole(b->argv))
-	__CPROVER_frees(b->argv);
 
 #ifndef CANARY_bufPutSInt
 #define POST_bufPutSInt(b, v, pos0, argc0, argv0, oldg) \
@@ -223,27 +211,6 @@ void c_bufPutHInt(Buffer b, UShort h)
 	(BUF_WR_VIEW(b, pos0, 4) && (b)->argv[pos0] == ENC_LE(v, 0) && (b)->argv[(pos0) + 1] == ENC_LE(v, 1) && \
 	 (b)->argv[(pos0) + 2] == ENC_LE(v, 3) && (b)->argv[(pos0) + 3] == ENC_LE(v, 3))
 #endif
-void c_bufPutSInt(Buffer b, ULong i)
-	__CPROVER_requires(PRE_bufWr(b))
-	__CPROVER_ensures(POST_bufPutSInt(b, i, __CPROVER_old(b->pos), __CPROVER_old(b->argc), __CPROVER_old(b->argv), __CPROVER_old(V_OLDG(b))))
-	__CPROVER_assigns(b->pos, b->argc, b->argv, __CPROVER_object_whole(b->argv))
-	__CPROVER_frees(b->argv);
-
-int c_bufWrUByte(Buffer b, UByte c)
-	__CPROVER_requires(PRE_bufWr(b))
-	__CPROVER_ensures(__CPROVER_return_value == 1 && POST_bufPutByte(b, c, __CPROVER_old(b->pos), __CPROVER_old(b->argc), __CPROVER_old(b->argv), __CPROVER_old(V_OLDG(b))))
-	__CPROVER_assigns(b->pos, b->argc, b->argv, __CPROVER_object_whole(b->argv))
-	__CPROVER_frees(b->argv);
-int c_bufWrUShort(Buffer b, UShort h)
-	__CPROVER_requires(PRE_bufWr(b))
-	__CPROVER_ensures(__CPROVER_return_value == 2 && POST_bufPutHInt(b, h, __CPROVER_old(b->pos), __CPROVER_old(b->argc), __CPROVER_old(b->argv), __CPROVER_old(V_OLDG(b))))
-	__CPROVER_assigns(b->pos, b->argc, b->argv, __CPROVER_object_whole(b->argv))
-	__CPROVER_frees(b->argv);
-int c_bufWrULong(Buffer b, ULong i)
-	__CPROVER_requires(PRE_bufWr(b))
-	__CPROVER_ensures(__CPROVER_return_value == 4 && POST_bufPutSInt(b, i, __CPROVER_old(b->pos), __CPROVER_old(b->argc), __CPROVER_old(b->argv), __CPROVER_old(V_OLDG(b))))
-	__CPROVER_assigns(b->pos, b->argc, b->argv, __CPROVER_object_whole(b->argv))
-	__CPROVER_frees(b->argv);
 
 /* bufAddn / bufPutChars / bufWrChars: n bytes of s appended (ghost g_k < n) */
 extern Length g_k;
@@ -317,7 +284,6 @@ ULong stoSize(Pointer p)
 MostAlignedType *stoAlloc(unsigned code, ULong size)
 {
 	void *p;
-	if (size == 0) return (MostAlignedType *) 0;
 	if (size > V_ALLOC_MAX) {
 		g_diag = 1;
 #ifdef NATIVE_REPLAY
@@ -326,10 +292,13 @@ MostAlignedType *stoAlloc(unsigned code, ULong size)
 		__CPROVER_assume(0);
 #endif
 	}
+#ifdef V_ALLOC_HOOK
+	V_ALLOC_HOOK(code, size);        /* harness-supplied ghost obligation evaluated when a request is SERVED */
+#endif
+	if (size == 0) return (MostAlignedType *) 0;
 #ifdef V_ALLOC_FOAM_NODES  /* struct-hack nodes (argv[NARY]): CBMC flags any access through a union foam * to an object
 			   * smaller than the union, so FOAM nodes are never smaller than that (README, struct hack); and
-			   * the literal malloc(sizeof(union foam)) makes CBMC type the object as the union (a byte array
-			   * accessed through a 90-member union costs 12 s of symex per node, probed) */
+			   * the literal malloc(sizeof(union foam)) makes CBMC type the object as the union */
 	if (code == OB_Foam && size <= sizeof(union foam)) p = malloc(sizeof(union foam));
 	else
 #endif
